@@ -90,6 +90,10 @@ def run(tape, prop, tier):
         n_init, n_later, later_at = n_init + n_later, 0, []        # the Exchange API registers before the run only
     chans = [pool[i] for i in order][:n_init + n_later]
     init_ch = chans[:n_init]
+    # a client that follows a few hundred markets (one SUBSCRIBE request carries them all)
+    many = (200 + tape.draw(150)) if (flavour == "binance" and tape.chance(0.06)) else 0
+    if many:
+        init_ch = init_ch + [f"trade:S{k:03d}USDT" for k in range(many)]
     later_ch = list(zip(later_at, chans[n_init:]))
     t_last_fault = max([t for t, _ in faults] + [t for t, _ in later_ch] + [0.0])
     t_end = t_last_fault + 1.5 * HB + 3.0 + backoff + 2 * S + 6.0
@@ -221,7 +225,10 @@ def run(tape, prop, tier):
                 await asyncio.sleep(0.4 + rng.random() * 0.6)
                 if c["ws"].closed or c["conn"].stalled:
                     return
-                for name in list(c["subs"]):
+                names = list(c["subs"])
+                if len(names) > 12:
+                    names = rng.sample(sorted(names), 6)        # keep the traffic of a many-channel run small
+                for name in names:
                     reg = chan_of_stream(name)
                     if reg is None:
                         continue
@@ -648,6 +655,8 @@ def run(tape, prop, tier):
     for e_ in L["errors"]:
         if e_.startswith("private subscription without"):
             V("private-subscription-malformed", e_)
+    if many:
+        res.probes["more_than_200_channels"] += 1
     kinds_fired = {k for (t, k, _) in L["fault_log"]}
     if len(kinds_fired) >= 2:
         res.probes["two_fault_kinds"] += 1
